@@ -353,6 +353,13 @@ func checkC11Server(k *Kernel, cov *Coverage) *Violation {
 			}
 			cov.Tuple(k.W.Name, c.Op.RPC, mode, "fam="+fam, bodyKind(body), fmt.Sprintf("dispatched=%v", cn.Dispatched > 0), fmt.Sprintf("status=%d", cn.status))
 		} else {
+			if mode == "server-garbage" && bodyVerb && c.Op.Raw != nil && !incomplete && fam == "json" && cn.Dispatched > 0 && rpc != nil {
+				if d := annotatedBodyDefect(k.W, rpc.In, c.Op.Raw.Body); d != "" {
+					return &Violation{Class: "dispatch-from-undecodable-body", Signature: sig("dispatch-from-undecodable-body", "in="+annType(rpc.In)+"|"+annKind(d)),
+						Detail: fmt.Sprintf("op %d %s: %s, yet the handler ran with %s (body %q)", c.Op.ID, c.Op.RPC, d, seenJSON(c, cn), truncBytes(c.Op.Raw.Body))}
+				}
+				k.Stats.Probe("annotated_body_judged")
+			}
 			cov.Tuple(k.W.Name, c.Op.RPC, mode, "fam="+fam, connFault(cn), fmt.Sprintf("dispatched=%v", cn.Dispatched > 0), fmt.Sprintf("status=%d", cn.status))
 		}
 		// a 400 must carry a well-formed ValidationError in the request's content type or JSON
@@ -572,9 +579,6 @@ func checkC11Client(k *Kernel, cov *Coverage) *Violation {
 				return &Violation{Class: "success-from-error-status", Signature: sig("success-from-error-status", fmt.Sprintf("status=%d", wireStatus)),
 					Detail: fmt.Sprintf("op %d %s: upstream answered %d yet the client returned success", c.Op.ID, c.Op.RPC, wireStatus)}
 			}
-			if srv == "go" && fk == "none" && c.HandlerResp != nil && !proto.Equal(c.Resp, c.HandlerResp) {
-				return &Violation{Class: "response-mismatch", Signature: sig("response-mismatch", ""), Detail: fmt.Sprintf("op %d: handler returned %s, caller got %s", c.Op.ID, jsonOf(c.HandlerResp), jsonOf(c.Resp))}
-			}
 		}
 		out := "err"
 		if c.Err == nil {
@@ -630,4 +634,133 @@ func (propC11) Sweep(base *Plan, k *Kernel) []*Plan {
 		}
 	}
 	return out
+}
+
+// annotatedBodyDefect judges a JSON body for a request type that carries JSON-mapping
+// annotations (the generator's dedicated Ann* types) with per-annotation well-formedness
+// predicates: it returns a description when a top-level annotated field holds a value
+// whose JSON *type* (or, for strings, alphabet) cannot possibly be decoded under the
+// documented mapping. It is deliberately narrow: anything debatable returns "".
+func annotatedBodyDefect(w *WorldDesc, msgFQ string, body []byte) string {
+	sm, _ := w.Spec().FindMessage(msgFQ)
+	if sm == nil || !strings.HasPrefix(sm.Name, "Ann") {
+		return ""
+	}
+	var obj map[string]json.RawMessage
+	if err := json.Unmarshal(body, &obj); err != nil {
+		return ""
+	}
+	for _, f := range sm.Fields {
+		raw, ok := obj[specJSONName(f.Name)]
+		if !ok {
+			continue
+		}
+		t := bytes.TrimSpace(raw)
+		if len(t) == 0 || t[0] == 'n' {
+			continue
+		}
+		kind := ""
+		switch t[0] {
+		case '{':
+			kind = "object"
+		case '[':
+			kind = "array"
+		case '"':
+			kind = "string"
+		case 't', 'f':
+			kind = "bool"
+		default:
+			kind = "number"
+		}
+		str := ""
+		if kind == "string" {
+			_ = json.Unmarshal(t, &str)
+		}
+		isInt := func(s string) bool {
+			if s == "" {
+				return false
+			}
+			for i, c := range s {
+				if (c < '0' || c > '9') && !(i == 0 && c == '-') {
+					return false
+				}
+			}
+			return true
+		}
+		bad := func(what string) string {
+			return fmt.Sprintf("field %s.%s (%s) holds JSON %s %s", sm.Name, f.Name, what, kind, truncBytes(t))
+		}
+		switch {
+		case f.Card != "" && f.Card != "optional":
+			continue
+		case f.Int64Encoding == "NUMBER":
+			if kind == "object" || kind == "array" || kind == "bool" || (kind == "string" && !isInt(str)) {
+				return bad("int64_encoding=NUMBER")
+			}
+		case f.TimestampFormat == "UNIX_SECONDS" || f.TimestampFormat == "UNIX_MILLIS":
+			// (a standard RFC 3339 string is the un-annotated proto3 JSON form: accepting it is lenient, not undecodable)
+			_, rfcErr := time.Parse(time.RFC3339Nano, str)
+			if kind == "object" || kind == "array" || kind == "bool" || (kind == "string" && !isInt(str) && rfcErr != nil) {
+				return bad("timestamp_format=" + f.TimestampFormat)
+			}
+		case f.TimestampFormat == "DATE" || f.TimestampFormat == "RFC3339":
+			if kind != "string" {
+				return bad("timestamp_format=" + f.TimestampFormat)
+			}
+			if len(str) < 10 || str[4] != '-' || str[7] != '-' {
+				return bad("timestamp_format=" + f.TimestampFormat)
+			}
+		case f.BytesEncoding != "":
+			if kind != "string" {
+				return bad("bytes_encoding=" + f.BytesEncoding)
+			}
+			for _, c := range str {
+				okc := (c >= 'A' && c <= 'Z') || (c >= 'a' && c <= 'z') || (c >= '0' && c <= '9') || c == '+' || c == '/' || c == '-' || c == '_' || c == '='
+				if f.BytesEncoding == "HEX" {
+					okc = (c >= '0' && c <= '9') || (c >= 'a' && c <= 'f') || (c >= 'A' && c <= 'F')
+				}
+				if !okc {
+					return bad("bytes_encoding=" + f.BytesEncoding)
+				}
+			}
+			if f.BytesEncoding == "HEX" && len(str)%2 == 1 {
+				return bad("bytes_encoding=HEX")
+			}
+		case f.EnumEncoding == "NUMBER":
+			if kind == "object" || kind == "array" || kind == "bool" {
+				return bad("enum_encoding=NUMBER")
+			}
+		case f.Kind == "enum":
+			if kind == "object" || kind == "array" || kind == "bool" {
+				return bad("enum")
+			}
+		}
+	}
+	return ""
+}
+
+// specJSONName is protoc's lowerCamel JSON name of a proto field name.
+func specJSONName(s string) string {
+	var b strings.Builder
+	up := false
+	for _, r := range s {
+		if r == '_' {
+			up = true
+			continue
+		}
+		if up && r >= 'a' && r <= 'z' {
+			r = r - 'a' + 'A'
+		}
+		up = false
+		b.WriteRune(r)
+	}
+	return b.String()
+}
+
+func annKind(d string) string {
+	i, j := strings.Index(d, "("), strings.Index(d, ")")
+	if i >= 0 && j > i {
+		return d[i+1 : j]
+	}
+	return ""
 }
